@@ -9,6 +9,7 @@ import Driver.UeqCmd
 import Driver.CanonCmd
 import Driver.MappedCmd
 import Driver.SerdeCmd
+import Driver.MacroCmd
 /-!
 Line-protocol driver: one request per line on stdin, one reply per line on stdout.
 The first word selects the model component; see DESIGN.md §2.4.
@@ -27,6 +28,7 @@ def handle (line : String) : String :=
   | "canon" :: args => canonCmd args
   | "mapped" :: args => mappedCmd args
   | "serde" :: args => serdeCmd args
+  | "macro" :: args => macroCmd args
   | _ => "bad-op"
 
 partial def loop (hin : IO.FS.Stream) (hout : IO.FS.Stream) : IO Unit := do
